@@ -25,6 +25,7 @@ func (c *Catalog) AddTag(name, title string) error {
 	}
 
 	t := NewTag(name, title)
+	t.declared = true
 
 	c.Tags.Set(t.Name, t)
 
@@ -106,7 +107,9 @@ func (c *Catalog) tagsFromTagsDirective(d *directive.Directive) ([]*Tag, *jerr.J
 		seen[tn] = struct{}{}
 
 		t, ok := c.Tags.Get(tn)
-		if !ok {
+		if !ok || !t.declared {
+			// A tag made from the path of an earlier interaction is not a
+			// declaration: whether it exists depends on the order of the text.
 			return nil, d.KeywordError(fmt.Sprintf("%s %q", jerr.TagNotFound, tn))
 		}
 
